@@ -136,6 +136,16 @@ class ReaderPath:
                 other = a[2] if lit_of(a[1]) else a[1]
                 if l is not None:
                     (self.eq_true if p else self.eq_false).append((l, other))
+            if a[0] == "variant" and a[2] == "Some" and isinstance(a[1], tuple) and a[1][0] == "call" and len(a[1][2]) == 2:
+                # `s.strip_prefix(lit)` / `strip_suffix(lit)` returned Some: same knowledge as starts_with / ends_with
+                if a[1][1].endswith("strip_prefix"):
+                    t2 = pat_text(a[1][2][1])
+                    if t2 is not None:
+                        self.prefixes.append(t2)
+                if a[1][1].endswith("strip_suffix"):
+                    t2 = pat_text(a[1][2][1])
+                    if t2 is not None:
+                        self.suffixes.append(t2)
             if a[0] == "truth" and p is True and isinstance(a[1], tuple) and a[1][0] == "call":
                 if a[1][1].endswith("starts_with"):
                     t2 = pat_text(a[1][2][1])
@@ -209,3 +219,78 @@ def str_and_char_consts(db, body):
                     if "char" in o:
                         chars.add(o["char"])
     return strs, chars
+
+
+# ------------------------------------------------------------------------------------------ MIR-side argument resolution
+
+def _self_field_places(t):
+    out = []
+    for x in subterms(t):
+        if isinstance(x, tuple) and len(x) == 3 and x[0] == "pl" and x[1] == ("obj", ("param", 1)) and x[2] and x[2][0][0] == "f":
+            out.append((x[2][0][1], x[2][0][2], x))
+        if isinstance(x, tuple) and len(x) == 4 and x[0] == "field" and x[1] == ("val", ("obj", ("param", 1))):
+            out.append((x[2], x[3], x))
+    return out
+
+
+def resolve_arg(argcall, facts):
+    """argcall: ('call', 'core::fmt::rt::Argument::new_<trait>', (x,), ..) -> dict(field, kind, trait, literal, variant)"""
+    trait = argcall[1].split("::")[-1].replace("new_", "")
+    x = argcall[2][0]
+    lit = lit_of(x)
+    if lit is None and isinstance(x, tuple) and x[0] == "refval":
+        lit = lit_of(x[1])
+    calls = [c[1].split("::")[-1] for c in subterms(x) if isinstance(c, tuple) and c and c[0] == "call" and isinstance(c[1], str)]
+    places = _self_field_places(x)
+    fields = sorted({f for v, f, _ in places})
+    res = {"trait": trait, "calls": calls, "field": fields[0] if len(fields) == 1 else None, "literal": None, "kind": "unknown", "variant": None}
+    if lit is not None and not fields:
+        res["kind"], res["literal"] = "literal", lit
+        return res
+    if not calls or set(calls) <= {"load"}:
+        res["kind"] = "display"
+        return res
+    if "to_uppercase" in calls and "new_debug" in calls:
+        res["kind"] = "debug-upper"
+        return res
+    if set(calls) <= {"to_string"}:
+        # to_string of a literal (sentinel) or of a payload of the field
+        inner = None
+        for c in subterms(x):
+            if isinstance(c, tuple) and c and c[0] == "call" and c[1].endswith("to_string") and c[2]:
+                inner = c[2][0]
+        l2 = lit_of(inner) if inner is not None else None
+        if l2 is None and isinstance(inner, tuple) and inner[0] == "refval":
+            l2 = lit_of(inner[1])
+        if l2 is not None:
+            res["kind"], res["literal"] = "literal", l2
+        else:
+            res["kind"] = "display"
+        return res
+    return res
+
+
+def mir_writer_args(ctx, ty):
+    """callsite -> [(facts, [resolved arg, ...])] for every write_fmt call on every path of <ty as Display>::fmt"""
+    try:
+        b = ctx.db.method(ty, "fmt", trait="Display")
+    except Exception:
+        return {}
+    w = ctx.walker(max_depth=4)
+    out = {}
+    try:
+        res = w.walk(b)
+    except Exception:
+        return {}
+    for r in res:
+        for e in r.trace:
+            if e[0] == "call" and e[1].endswith("write_fmt") and len(e) > 8 and e[8]:
+                a = e[3][2][1] if isinstance(e[3], tuple) and len(e[3][2]) > 1 else None
+                if not (isinstance(a, tuple) and a[0] == "call" and a[1].endswith("Arguments::new") and len(a[2]) == 2):
+                    out.setdefault(e[8], []).append((r.facts, []))
+                    continue
+                arr = a[2][1]
+                arr = arr[1] if isinstance(arr, tuple) and arr[0] == "refval" else arr
+                items = list(arr[1]) if isinstance(arr, tuple) and arr[0] == "array" else []
+                out.setdefault(e[8], []).append((r.facts, [resolve_arg(x, r.facts) if isinstance(x, tuple) and x[0] == "call" else None for x in items]))
+    return out
